@@ -4,8 +4,11 @@ ToNNX: generated Linen programs (counters, running statistics, RNG use, partitio
 nnx.bridge.ToNNX, optionally nested in an NNX parent; call sequences with changing `mutable`, state
 extraction and re-insertion, and exceptions injected inside the wrapped module.  Reference after every call:
 the wrapped Linen module itself, applied to the variables the harness extracts from the wrapper.
-ToLinen: small NNX classes (Param, BatchStat counter, RNG use, sharding metadata) wrapped by
-nnx.bridge.to_linen, optionally nested in a Linen parent; reference: nnx.merge(graphdef, state)(x).
+ToLinen: small NNX classes (Param, BatchStat counter, RNG use, sharding metadata; in a fraction of the runs also
+Variables whose type is a SUBCLASS of another Variable type of the same module: nnx.LoRAParam / a user subclass next to
+nnx.Param, a user subclass next to nnx.BatchStat, nnx.Perturbation next to nnx.Intermediate) wrapped by
+nnx.bridge.to_linen, optionally nested in a Linen parent; reference: nnx.merge(graphdef, state)(x) and the NNX class
+built by hand on the same state; every returned collection must hold exactly the Variables of its own type.
 """
 from __future__ import annotations
 
@@ -27,6 +30,12 @@ RULE = (
   'wrapper drew, mutable=...), and every collection must sit under its matching Variable type with names and sharding metadata '
   'intact. ToLinen runs: an NNX class wrapped by to_linen (optionally inside a Linen parent): init, apply sequences with mutable '
   'batch_stats, compared with nnx.merge(graphdef, state)(x) on the state the harness builds from the Linen variables. '
+  'In a fraction of the ToLinen runs the NNX class also holds subclass-typed Variables (nnx.LoRAParam and a user subclass of '
+  'nnx.Param next to nnx.Param, a user subclass of nnx.BatchStat next to nnx.BatchStat, nnx.Perturbation next to an '
+  'nnx.Intermediate), all used in the output; apply gets generated mutable lists over those collections and history steps edit '
+  'single Linen variables (the subclass-typed ones included). After init and after every apply with mutable collections each '
+  'returned collection must hold exactly the Variables of that exact type (none twice), with the values the hand-built NNX '
+  'module leaves. '
   'Non-trivial = >= 2 calls compared; distinct = distinct event-log digest.'
 )
 STEP_UNIT = 'wrapper calls compared with the wrapped module'
@@ -35,7 +44,7 @@ ASSUMPTIONS = [
   'the wrapped module itself (Linen apply / nnx.merge) is the reference: if it is wrong, wrapper and reference are wrong alike',
   'nothing is asserted about the wrapper Rngs after a call that raised (keys are drawn before the wrapped module runs)',
 ]
-PROBES = ['tonnx_runs', 'tolinen_runs', 'mutable_update_propagated', 'eval_call_no_update', 'roundtrip_split_merge', 'fault_in_wrapped', 'nested_in_nnx_parent', 'nested_in_linen_parent', 'partitioned_param_metadata', 'tolinen_sharding_metadata', 'tolinen_rng', 'tolinen_rng_stored_stream', 'tolinen_skip_rng', 'full_state_roundtrip', 'call_time_rngs', 'convert_roundtrip', 'tolinen_falsy_metadata', 'user_metadata_set', 'custom_registered_type', 'name_reregistered', 'failed_lazy_init_of_parent', 'call_interleaved_with_bridge_apply']
+PROBES = ['tonnx_runs', 'tolinen_runs', 'mutable_update_propagated', 'eval_call_no_update', 'roundtrip_split_merge', 'fault_in_wrapped', 'nested_in_nnx_parent', 'nested_in_linen_parent', 'partitioned_param_metadata', 'tolinen_sharding_metadata', 'tolinen_rng', 'tolinen_rng_stored_stream', 'tolinen_skip_rng', 'full_state_roundtrip', 'call_time_rngs', 'convert_roundtrip', 'tolinen_falsy_metadata', 'user_metadata_set', 'custom_registered_type', 'name_reregistered', 'failed_lazy_init_of_parent', 'call_interleaved_with_bridge_apply', 'tolinen_subclass_typed', 'tolinen_exact_collections', 'tolinen_subclass_collection_updated', 'tolinen_variable_edited', 'tolinen_subclass_variable_edited']
 
 
 def setup_worker(w, tier):
@@ -50,8 +59,13 @@ def setup_worker(w, tier):
   c09.setup_worker(w, tier)
   globals().update(bv=bv)
 
+  # Variable types that are subclasses of other Variable types held by the same module.  Defined once per worker process:
+  # nnx's collection-name registry is process-wide and keyed by the class name.
+  if 'SubParam' not in globals():
+    globals().update(SubParam=type(SUBP, (nnx.Param,), {}), SubStat=type(SUBS, (nnx.BatchStat,), {}))
+
   class NMod(nnx.Module):
-    def __init__(self, d, use_rng, shard, *, rngs):
+    def __init__(self, d, use_rng, shard, sub=(), *, rngs):
       k = rngs.params()
       meta = {'sharding': ('dp',)} if shard is True else ({'layer': 0, 'trainable': False} if shard == 'falsy' else {})
       cmeta = {'synced': False} if shard == 'falsy' else {}
@@ -61,6 +75,18 @@ def setup_worker(w, tier):
       self.rngs = rngs if use_rng else None
       if CUSTOM[0] is not None:
         self.ema = CUSTOM[0](jnp.zeros((), jnp.float32))
+      self.sub = tuple(sub)
+      if 'lora' in self.sub:
+        self.lora = nnx.LoRAParam(jax.random.randint(jax.random.fold_in(k, 1), (d,), -2, 3).astype(jnp.float32), **meta)
+      if 'param' in self.sub:
+        self.mine = SubParam(jax.random.randint(jax.random.fold_in(k, 2), (d,), -2, 3).astype(jnp.float32), **meta)
+      if 'stat' in self.sub:
+        self.seen = SubStat(jnp.zeros((), jnp.float32), **cmeta)
+      if 'pert' in self.sub:
+        # (the nnx.Intermediate next to it is assigned in __call__, the way `sow` does: Linen's init never returns the
+        # 'intermediates' collection, so an Intermediate created in the constructor cannot be applied afterwards --
+        # unchanged-tree corner, reported, avoided here)
+        self.pert = nnx.Perturbation(jnp.zeros((d,), jnp.float32))
 
     def __call__(self, x, train=True):
       P.CTL.event('nnx-call')
@@ -68,6 +94,17 @@ def setup_worker(w, tier):
       if train:
         self.count.value = self.count.value + 1.0
       y = x + self.w.value + self.count.value
+      if 'lora' in self.sub:
+        y = y + 2.0 * self.lora.value
+      if 'param' in self.sub:
+        y = y + 3.0 * self.mine.value
+      if 'stat' in self.sub:
+        if train:
+          self.seen.value = self.seen.value + 2.0
+        y = y + self.seen.value
+      if 'pert' in self.sub:
+        self.last = nnx.Intermediate(x.sum())
+        y = y + self.pert.value
       if self.use_rng:
         y = y + jax.random.randint(self.rngs.dropout(), y.shape, -3, 4).astype(jnp.float32)
       return y
@@ -75,8 +112,8 @@ def setup_worker(w, tier):
   class NModOwn(NMod):
     """Same module, but the constructor takes no rngs (ToLinen(skip_rng=True)): it builds its own streams."""
 
-    def __init__(self, d, use_rng, shard):
-      NMod.__init__(self, d, use_rng, shard, rngs=nnx.Rngs(params=5, dropout=6))
+    def __init__(self, d, use_rng, shard, sub=()):
+      NMod.__init__(self, d, use_rng, shard, sub, rngs=nnx.Rngs(params=5, dropout=6))
 
   class NParent(nnx.Module):
     def __init__(self, inner):
@@ -91,11 +128,12 @@ def setup_worker(w, tier):
   class LParent(nn.Module):
     use_rng: bool
     shard: bool
+    sub: tuple = ()
 
     @nn.compact
     def __call__(self, x, train=True):
       b = self.param('b', P.int_init('bias'), (P.D,))
-      return bridge.ToLinen(NMod, args=(P.D, self.use_rng, self.shard), name='wrapped')(x + b, train)
+      return bridge.ToLinen(NMod, args=(P.D, self.use_rng, self.shard, self.sub), name='wrapped')(x + b, train)
 
   class BM(bridge.Module):
     """A Linen-style NNX module (bridge.Module): its apply() installs a module context for the calling thread."""
@@ -143,9 +181,14 @@ def generate(rs, tier):
     return dict(engine='bridgeworld', knobs=dict(kind='tonnx', spec=sp, nested=g.random() < 0.3, failed_parent_init=g.random() < 0.4, seed=g.randrange(5), batch=g.choice([1, 2])), ops=ops)
   ops = []
   custom = g.random() < 0.3
+  # Variables of a subclass type next to Variables of the parent type
+  sub = [s for s in SUB_KINDS if g.random() < 0.55] if g.random() < 0.5 else []
   for _ in range(g.randrange(2, 7)):
     if custom and g.random() < 0.25:
       ops.append(dict(op='reregister'))
+    if g.random() < (0.3 if sub else 0.08):
+      # the user replaces one Linen variable (a training step on one collection, a checkpoint restore, ...)
+      ops.append(dict(op='edit', target=g.randrange(64), prefer_sub=g.random() < 0.7, value=g.randrange(-4, 5)))
     ops.append(dict(op='apply', train=g.random() < 0.7, mutable=g.random() < 0.7, fill=g.randrange(3), seed=g.randrange(4)))
     if g.random() < 0.45:
       # mutable=True: every collection (the RNG stream state included) comes back; without rngs= the module runs off
@@ -153,7 +196,10 @@ def generate(rs, tier):
       ops[-1]['mut_all'] = True
     if g.random() < 0.4:
       ops[-1]['stored_rng'] = True
-  return dict(engine='bridgeworld', knobs=dict(kind='tolinen', custom=custom, tag=g.getrandbits(40), use_rng=g.random() < 0.4, skip_rng=g.random() < 0.2, shard=g.choice([False, False, True, True, 'falsy']), nested=g.random() < 0.35, seed=g.randrange(5), batch=g.choice([1, 2])), ops=ops)
+    if sub:
+      # further collections in apply's mutable list (next to batch_stats), present in the module or not
+      ops[-1]['mut_extra'] = [c for c in MUT_EXTRA if g.random() < 0.3]
+  return dict(engine='bridgeworld', knobs=dict(kind='tolinen', sub=sub, custom=custom, tag=g.getrandbits(40), use_rng=g.random() < 0.4, skip_rng=g.random() < 0.2, shard=g.choice([False, False, True, True, 'falsy']), nested=g.random() < 0.35, seed=g.randrange(5), batch=g.choice([1, 2])), ops=ops)
 
 
 def _fix_streams(sp):
@@ -165,6 +211,11 @@ def _fix_streams(sp):
 
 
 SHRINK_LISTS = ['ops']
+SUBP, SUBS = 'C18SubParam', 'C18SubStat'  # class names = collection names of the user-defined subclass types
+SUB_KINDS = ['lora', 'param', 'stat', 'pert']
+MUT_EXTRA = ['params', 'LoRAParam', SUBP, SUBS, 'intermediates', 'perturbations']
+# kind -> (collection named after the exact type, attribute name, parent type's collection)
+SUB_VARS = {'lora': ('LoRAParam', 'lora', 'params'), 'param': (SUBP, 'mine', 'params'), 'stat': (SUBS, 'seen', 'batch_stats'), 'pert': ('perturbations', 'pert', 'intermediates')}
 
 
 def signature(plan, v):
@@ -477,20 +528,23 @@ class ToLinenWorld:
       self.ctype = type(f'EmaA_{k["tag"]:x}', (nnx.Variable,), {})
       variablelib.register_variable_name(self.cname, self.ctype)
       CUSTOM[0] = self.ctype
+      self.ccol = self.cname
       res.probe('custom_registered_type')
+    self.sub = tuple(k.get('sub') or ())
+    if self.sub:
+      res.probe('tolinen_subclass_typed')
     if k['nested']:
-      self.lm = LParent(k['use_rng'], k['shard'])
+      self.lm = LParent(k['use_rng'], k['shard'], self.sub)
       res.probe('nested_in_linen_parent')
     elif k.get('skip_rng'):
       # documented option: the NNX constructor takes no rngs; the module may still own streams, and apply(rngs=...) reseeds them
-      self.lm = bridge.ToLinen(NModOwn, args=(P.D, k['use_rng'], k['shard']), skip_rng=True)
+      self.lm = bridge.ToLinen(NModOwn, args=(P.D, k['use_rng'], k['shard'], self.sub), skip_rng=True)
       res.probe('tolinen_skip_rng')
     else:
-      self.lm = bridge.to_linen(NMod, P.D, k['use_rng'], k['shard'])
+      self.lm = bridge.to_linen(NMod, P.D, k['use_rng'], k['shard'], self.sub)
     self.x0 = P.make_input(k['batch'], 1)
-    P.CTL.reset()
-    self.vars = self.lm.init({'params': jax.random.key(k['seed']), 'dropout': jax.random.key(k['seed'] + 7)}, self.x0)
     self.calls = 0
+    self.init_vars('init')
     inner = self.inner(self.vars)
     for col in ('params', 'batch_stats', 'nnx'):
       if col not in inner:
@@ -499,7 +553,8 @@ class ToLinenWorld:
       raise Violation('collection-type-mismatch', f'init: Param / BatchStat are not exposed under params / batch_stats: {jax.tree.map(lambda x: 0, inner)}')
     self.want_meta = ({'sharding': ('dp',)}, {}) if k['shard'] is True else (({'layer': 0, 'trainable': False}, {'synced': False}) if k['shard'] == 'falsy' else ({}, {}))
     if k['shard']:
-      for col, name, want in (('params', 'w', self.want_meta[0]), ('batch_stats', 'count', self.want_meta[1])):
+      more = [(SUB_VARS[s][0], SUB_VARS[s][1], self.want_meta[1 if s == 'stat' else 0]) for s in self.sub if s != 'pert']
+      for col, name, want in [('params', 'w', self.want_meta[0]), ('batch_stats', 'count', self.want_meta[1])] + more:
         if not want:
           continue
         box = inner[col][name]
@@ -511,6 +566,41 @@ class ToLinenWorld:
   def inner(self, v):
     return {c: (t['wrapped'] if self.k['nested'] else t) for c, t in v.items() if not self.k['nested'] or 'wrapped' in t}
 
+  def init_vars(self, what):
+    k = self.k
+    P.CTL.reset()
+    self.vars = self.lm.init({'params': jax.random.key(k['seed']), 'dropout': jax.random.key(k['seed'] + 7)}, self.x0)
+    # the graphdef held in self.vars knows the Intermediate the module assigns while it runs only after an
+    # apply(mutable=True) whose 'nnx' collection was kept
+    self.has_last = False
+    # every Variable the freshly constructed NNX module holds, under the collection of its exact type, nothing twice
+    self.check_exact(what, self.inner(self.vars), self.ref_state(self.fresh_module()), True)
+
+  def fresh_module(self):
+    k = self.k
+    if k.get('skip_rng') and not k['nested']:
+      return NModOwn(P.D, k['use_rng'], k['shard'], self.sub)
+    return NMod(P.D, k['use_rng'], k['shard'], self.sub, rngs=nnx.Rngs(params=0, dropout=1))
+
+  def check_exact(self, what, got_all, want, mut):
+    """The returned collections hold exactly the Variables of `want` ({(collection, path): value} read off the hand-built
+    NNX module by exact type) that live in a mutable collection: nothing missing, nothing extra, nothing in two places."""
+    got = flat_vars({c: t for c, t in got_all.items() if c != 'nnx'})
+    want_keys = {kp for kp in want if mut is True or kp[0] in mut}
+    extra = sorted(set(got) - want_keys)
+    missing = sorted(want_keys - set(got))
+    if extra:
+      twice = [kp for kp in extra if any(w[1] == kp[1] for w in want)]
+      if twice:
+        col, path_ = twice[0]
+        home = [w[0] for w in want if w[1] == path_][0]
+        raise Violation('variable-in-two-collections', f'{what}: Variable {"/".join(path_)} (collection {home!r} by its type) is ALSO returned under collection {col!r}; returned: {sorted(got)}')
+      raise Violation('collection-type-mismatch', f'{what}: returned variables contain {extra}, which the NNX module does not hold under those types; returned: {sorted(got)}')
+    if missing:
+      raise Violation('collection-missing', f'{what}: {missing} not returned (mutable={mut}); returned: {sorted(got)}')
+    self.res.probe('tolinen_exact_collections')
+    return got
+
   def step(self, oi, op):
     k = self.k
     if op['op'] == 'reregister':
@@ -518,10 +608,29 @@ class ToLinenWorld:
       # which from now on must travel under their own (type-named) collection
       other = type(f'EmaB_{k["tag"]:x}_{oi}', (nnx.Variable,), {})
       self.vl.register_variable_name(self.cname, other, overwrite=True)
-      P.CTL.reset()
-      self.vars = self.lm.init({'params': jax.random.key(k['seed']), 'dropout': jax.random.key(k['seed'] + 7)}, self.x0)
+      self.ccol = self.ctype.__name__
+      self.init_vars(f'op {oi} init after re-registration')
       self.res.probe('name_reregistered')
       self.log.add(oi, 'reregister')
+      return
+    if op['op'] == 'edit':
+      # one Linen variable is replaced by the user; the next apply must compute with it (checked against the hand-built
+      # NNX module, which reads every value from the collection of the Variable's exact type)
+      cands = [('params', 'w', False), ('batch_stats', 'count', False)] + [(SUB_VARS[s][0], SUB_VARS[s][1], True) for s in self.sub]
+      pref = [c for c in cands if c[2]] if op.get('prefer_sub') else []
+      col, name, is_sub = (pref or cands)[op['target'] % len(pref or cands)]
+      new = flax.core.unfreeze(self.vars)
+      new = {c: dict(t) if isinstance(t, dict) else t for c, t in new.items()}
+      if k['nested']:
+        new[col]['wrapped'] = dict(new[col]['wrapped'])
+      holder = new[col]['wrapped'] if k['nested'] else new[col]
+      old = holder[name]
+      shape = np.shape(val_of(old))
+      arr = jnp.asarray(np.full(shape, float(op['value'] if shape else abs(op['value'])), np.float32))
+      holder[name] = old.replace_boxed(arr) if hasattr(old, 'replace_boxed') else arr
+      self.vars = new
+      self.res.probe('tolinen_subclass_variable_edited' if is_sub else 'tolinen_variable_edited')
+      self.log.add(oi, 'edit', col, name)
       return
     x = P.make_input(k['batch'], op['fill'])
     stored = bool(op.get('stored_rng'))
@@ -535,13 +644,22 @@ class ToLinenWorld:
     if k['nested']:
       xin = x + np.asarray(self.vars['params']['b'])
     y_ref = xin + w_val + want_count
+    # closed form for the subclass-typed Variables: each value is read from the collection named after its exact type
+    if 'lora' in self.sub:
+      y_ref = y_ref + 2.0 * np.asarray(val_of(inner['LoRAParam']['lora']))
+    if 'param' in self.sub:
+      y_ref = y_ref + 3.0 * np.asarray(val_of(inner[SUBP]['mine']))
+    if 'stat' in self.sub:
+      y_ref = y_ref + np.asarray(val_of(inner[SUBS]['seen'])) + (2.0 if op['train'] else 0.0)
+    if 'pert' in self.sub:
+      y_ref = y_ref + np.asarray(val_of(inner['perturbations']['pert']))
     # reference: the NNX class instantiated by hand, given the state held in the Linen variables (values copied in one
     # by one -- no bridge code involved), reseeded with the key ToLinen derives when rngs are passed, then called
     ref = self.ref_module(inner, rngs)
     P.CTL.reset()
     y_twin = ref(jnp.asarray(xin), op['train'])
     P.CTL.reset()
-    mut = True if mut_all else (['batch_stats'] if op['mutable'] else False)
+    mut = True if mut_all else (['batch_stats'] + list(op.get('mut_extra') or ()) if op['mutable'] else False)
     if k['use_rng']:
       self.res.probe('tolinen_rng_stored_stream' if stored else 'tolinen_rng')
     del META_SEEN[:]
@@ -574,24 +692,31 @@ class ToLinenWorld:
       got = self.inner(upd).get('batch_stats', {}).get('count')
       if got is None or float(np.asarray(val_of(got))) != float(want_count):
         raise Violation('state-differs-from-wrapped', f'op {oi}: updated batch_stats count is {None if got is None else float(np.asarray(val_of(got)))}, the NNX module leaves {float(want_count)}')
-      if 'params' in upd and not mut_all:
-        raise Violation('state-differs-from-wrapped', f'op {oi}: apply(mutable=[batch_stats]) returned params as well')
+      if not mut_all:
+        for col in sorted(upd):
+          if col not in mut:
+            raise Violation('state-differs-from-wrapped', f'op {oi}: apply(mutable={mut}) returned collection {col!r} as well')
+      # every Variable of the NNX module (of the mutable collections) comes back under the collection named after its
+      # exact type and nowhere else, with the value the module left in it (the RNG stream keys and counters are
+      # Variables like any other)
+      want = self.ref_state(ref)
+      got_flat = self.check_exact(f'op {oi} apply(mutable={mut})', self.inner(upd), want, mut)
+      for kp in sorted(got_flat):
+        gv, wv = val_of(got_flat[kp]), want[kp]
+        if raw_bytes(gv) != raw_bytes(wv):
+          raise Violation('state-differs-from-wrapped', f'op {oi} apply(mutable={mut}, rngs={"none" if stored else "given"}): {kp[0]}/{"/".join(kp[1])} comes back as {show(gv)}, the NNX module with the same state leaves {show(wv)}')
       if mut_all:
-        # every Variable of the NNX module comes back under the collection named after its type, with the value the
-        # module left in it (the RNG stream keys and counters are Variables like any other)
-        want = self.ref_state(ref)
-        got_all = self.inner(upd)
-        for (col, path_), wv in sorted(want.items()):
-          node = got_all.get(col, {})
-          for part in path_:
-            node = node.get(part, {}) if isinstance(node, dict) or hasattr(node, 'get') else {}
-          gv = val_of(node) if not isinstance(node, dict) else None
-          if gv is None:
-            raise Violation('collection-missing', f'op {oi}: apply(mutable=True) did not return {col}/{"/".join(path_)}: {sorted(got_all)}')
-          if raw_bytes(gv) != raw_bytes(wv):
-            raise Violation('state-differs-from-wrapped', f'op {oi} apply(mutable=True, rngs={"none" if stored else "given"}): {col}/{"/".join(path_)} comes back as {show(gv)}, the NNX module with the same state leaves {show(wv)}')
         self.res.probe('full_state_roundtrip')
-      self.vars = merge_vars(flax.core.unfreeze(self.vars), flax.core.unfreeze(upd))
+      if op['train'] and (SUBS, ('seen',)) in got_flat:
+        self.res.probe('tolinen_subclass_collection_updated')
+      upd = flax.core.unfreeze(upd)
+      if mut_all and 'pert' in self.sub:
+        self.has_last = True
+      elif not self.has_last:
+        # the Intermediate assigned during this apply is unknown to the graphdef kept in self.vars: feeding it back would
+        # be rejected by nnx.merge ("got an extra 1 leaves") -- intermediates are outputs, as in Linen
+        upd.pop('intermediates', None)
+      self.vars = merge_vars(flax.core.unfreeze(self.vars), upd)
       if op['train']:
         self.res.probe('mutable_update_propagated')
     else:
@@ -601,12 +726,12 @@ class ToLinenWorld:
 
   def ref_module(self, inner, rngs):
     k = self.k
-    if k.get('skip_rng') and not k['nested']:
-      m = NModOwn(P.D, k['use_rng'], k['shard'])
-    else:
-      m = NMod(P.D, k['use_rng'], k['shard'], rngs=nnx.Rngs(params=0, dropout=1))
+    m = self.fresh_module()
     m.w.value = jnp.asarray(val_of(inner['params']['w']))
     m.count.value = jnp.asarray(val_of(inner['batch_stats']['count']))
+    for s in self.sub:
+      col, name, _ = SUB_VARS[s]
+      getattr(m, name).value = jnp.asarray(val_of(inner[col][name]))
     if k.get('custom') and 'ema' in vars(m):
       for col, t in inner.items():
         if col not in ('params', 'batch_stats', 'nnx', 'RngKey', 'RngCount') and 'ema' in t:
@@ -627,12 +752,31 @@ class ToLinenWorld:
 
   def ref_state(self, m):
     out = {('params', ('w',)): m.w.value, ('batch_stats', ('count',)): m.count.value}
+    for s in self.sub:
+      col, name, _ = SUB_VARS[s]
+      out[(col, (name,))] = getattr(m, name).value
+    if 'last' in vars(m):
+      out[('intermediates', ('last',))] = m.last.value
+    if self.k.get('custom') and 'ema' in vars(m):
+      out[(self.ccol, ('ema',))] = m.ema.value
     if self.k['use_rng']:
       for name in ('params', 'dropout'):
         st = getattr(m.rngs, name)
         out[('RngKey', ('rngs', name, 'key'))] = st.key.value
         out[('RngCount', ('rngs', name, 'count'))] = st.count.value
     return out
+
+
+def flat_vars(t, path=()):
+  """{(collection, path): leaf} of Linen-style variables (metadata boxes are leaves)."""
+  out = {}
+  for key in t.keys():
+    v = t[key]
+    if not hasattr(v, 'unbox') and (isinstance(v, dict) or hasattr(v, 'keys')):
+      out.update(flat_vars(v, path + (key,)))
+    else:
+      out[(path[0], path[1:] + (key,))] = v
+  return out
 
 
 def raw_bytes(x):
